@@ -137,8 +137,11 @@ structure Inst where
   imm : Int := 0
 deriving DecidableEq, Repr
 
-/-- `registerTable`: R0..R31 and R255 -/
-def regNames : List (List Char) := (List.range 32).map (fun i => 'R' :: showNat 10 i) ++ ["R255".toList]
+/-- `registerTable`: R0..R254 (every SASS general register; repaired — before: R0..R31, `regNamesOld`) and the zero
+    register R255 -/
+def regNames : List (List Char) := (List.range 255).map (fun i => 'R' :: showNat 10 i) ++ ["R255".toList]
+/-- the table before the repair: R0..R31 and R255 -/
+def regNamesOld : List (List Char) := (List.range 32).map (fun i => 'R' :: showNat 10 i) ++ ["R255".toList]
 def knownReg (t : List Char) : Bool := regNames.contains t
 
 /-- `elems[i]` with a Go `int` index -/
